@@ -401,6 +401,27 @@ def run_case(case, ctx):
         cond = numcond(fn, [a1, a2]) + numcond(fn, [b1, b2])
         if base == 'div':   # division goes through log/exp: relative error grows with |log|
             cond *= 1 + float(abs(m.log(a2))) + float(abs(m.log(b2)))
+        if case['scalar_other'] and op == 'div':
+            # the same kind of quotient with an integer-typed divisor (numpy integer, 0-d or 1-element integer array, a list): either
+            # refused, or the quotient by that number - never anything else
+            dnum = [2, 4, -3, 8, 5][int(abs(x2) * 1000) % 5]
+            dform = [np.int64(dnum), np.array(dnum), np.array([dnum]), np.int32(dnum), [dnum], np.array([dnum], dtype=np.int16)][int(abs(x1) * 1000) % 6]
+            try:
+                with np.errstate(all='ignore'):
+                    qi = u / dform
+            except Exception:
+                ctx.count('integer_typed_divisor_refused')
+                qi = None
+            if qi is not None:
+                with np.errstate(all='ignore'):
+                    qf = u / float(dnum)
+                ctx.count('integer_typed_divisor_quotient_asserted')
+                o_ = [complex(np.ravel(qi.z1)[0]), complex(np.ravel(qi.z2)[0])]
+                e_ = [complex(np.ravel(qf.z1)[0]), complex(np.ravel(qf.z2)[0])]
+                if any(abs(p_ - q_) > 8 * EPS * abs(q_) for p_, q_ in zip(o_, e_)):
+                    ctx.reject('differs_from_holomorphic_extension', observed=o_, expected=e_, function='div',
+                               detail=dict(divisor=repr(dform), integer_typed_divisor=True))
+                    return
         ctx.count('asserted:binary')
         if compare(ctx, case, op, complex(res.z1), complex(res.z2), Z1, Z2, cond) and all(h1):
             ctx.nontrivial(_nontrivial_key(op, h1))
